@@ -216,6 +216,10 @@ Definition nak_step (s : hst) (p : NakPdu) (code : Z) (r : list Z) : hst * list 
   else if code =? 16 then acc (st_alias (st_segs s (nk_segs p)) true)
   else if code =? 2 then acc (st_p s (KNak (nak_set_start p (nth 0 r 0))))
   else if code =? 3 then acc (st_p s (KNak (nak_set_end p (nth 0 r 0))))
+  (* 20: get_max_seg_reqs_for_max_packet_size(n) observed (reads the PDU's current configuration) *)
+  else if code =? 20 then
+    (s, match nak_max_seg_reqs (nth 0 r 0) (nk_conf p) with
+        | Ok v => [0; v] | Err e => [1; canon_code e] end)
   else (s, [1; 97]).
 
 Definition md_with_options (p : MetadataPdu) (o : option (list tlv)) : MetadataPdu :=
